@@ -97,9 +97,13 @@ loop:
 			continue loop
 		}
 
-		// Try for a comment.
+		// Try for a comment, but not inside a string literal: the top of the loop is also reached
+		// right after a Go expression, where `//` or `/*` can be part of the string.
 		var comment string
-		comment, ok, err = jsComment.Parse(pi)
+		ok = false
+		if stringLiteralDelimiter == jsQuoteNone {
+			comment, ok, err = jsComment.Parse(pi)
+		}
 		if err != nil {
 			return nil, false, err
 		}
